@@ -640,9 +640,14 @@ class Interp:
         if not self.fn_stack:
             return "?"
         kn = known_fns(self.crate.name)
-        for f in reversed(self.fn_stack):
+        i = len(self.fn_stack) - 1
+        while i >= 0:
+            f = self.fn_stack[i]
             if f in kn or f not in self.inlined:
                 return f
+            # a helper introduced by a later change (possibly re-entered as the owner of a closure that some callee runs):
+            # what it does is done by the function that called it -- the frame below its *first* occurrence
+            i = self.fn_stack.index(f) - 1
         return self.fn_stack[0]
 
     # -- entry points -----------------------------------------------------------
